@@ -398,6 +398,9 @@ def run(tier):
                 rep.check(not bad, "anchor-payload", "%s:%s" % (short(k), var), "an anchor id in an event comes from neither register_anchor nor the literal 0",
                           site=site(f, s["sp"]), detail=[str(b)[:80] for b in bad])
     rep.floor("events carrying anchor ids", n_ev, 6)
+    # the push interface delivers a whole sentence too: a call of load that returns Ok has handed over a document or StreamEnd
+    from . import C17 as _C17
+    _C17.load_delivers(rep, F, rule="push-sentence-complete")
     return rep
 
 
